@@ -1448,7 +1448,7 @@ ASSUMPTIONS = [
 
 def tier_config(tier):
     if tier == 'quick':
-        return {'classes': [('norecycle', 1500), ('recycle', 2500), ('lru', 1000), ('threads', 2500)], 'chunk': 25, 'selftest_n': 120,
+        return {'classes': [('norecycle', 1500), ('recycle', 2500), ('lru', 1000), ('threads', 2500)], 'chunk': 25, 'selftest_n': 320,
                 'sample': 1, 'hang_s': 240}
     return {'classes': [('norecycle', 3000), ('recycle', 5000), ('lru', 2000), ('threads', 6000)], 'chunk': 25, 'selftest_n': 600,
             'sample': 1, 'hang_s': 900, 'repeat': True, 'budget_s': 900}
